@@ -393,10 +393,16 @@ func streamC05(h *H) {
 	saltLens := []int{0, 8, 16, 63, 64, 64, 64, 64, 64, 65, 128}
 	for i := 0; i < h.N(250, 6000); i++ {
 		n, r, p := ns[h.Intn(len(ns))], rs[h.Intn(len(rs))], ps[h.Intn(len(ps))]
-		if h.Intn(3) == 0 { // mostly-valid stream
+		switch h.Intn(6) {
+		case 0, 1: // mostly-valid stream
 			n, r, p = 1<<(1+h.Intn(10)), 1+h.Intn(3), 1+h.Intn(2)
+		case 2: // even N that is not a power of two: passes simple-scrypt's Check, refused by scrypt.Key
+			n, r, p = []int{6, 10, 12, 24, 48, 1000, 4094}[h.Intn(7)], 1+h.Intn(3), 1+h.Intn(2)
 		}
 		salt := h.Bytes(saltLens[h.Intn(len(saltLens))])
+		if h.Intn(2) == 0 {
+			salt = h.Bytes(64)
+		}
 		pw := h.Bytes(h.Intn(12))
 		small := n > 1 && n <= 4096 && r >= 1 && r <= 8 && p >= 1 && p <= 3
 		// guard the harness itself against huge allocations should a changed implementation
